@@ -164,6 +164,14 @@ class get_expr_end_visitor(NodeVisitor):
         self.visit(node)
         return self.last_loc
 
+    def advance(self, node):
+        # type: (AST) -> None
+        # the textually last node is not always the last one visited:
+        # f(k=1, *x) visits the keyword after the starred argument
+        loc = node.lineno, node.col_offset + 1  # type: ignore[attr-defined]
+        if loc > self.last_loc:
+            self.last_loc = loc
+
     def visit_Store(self, node):
         # type: (AST) -> None
         pass
@@ -174,14 +182,14 @@ class get_expr_end_visitor(NodeVisitor):
 
     def visit_Constant(self, node):
         # type: (Constant) -> None
-        self.last_loc = node.lineno, node.col_offset + 1
+        self.advance(node)
 
     def __getattr__(self, name):
         # type: (str) -> t.Callable[[AST], None]
         def inner(node):
             # type: (AST) -> None
             try:
-                self.last_loc = node.lineno, node.col_offset + 1
+                self.advance(node)
             except AttributeError:
                 pass
             self.generic_visit(node)
